@@ -178,6 +178,41 @@ def chk_funnel(rng):
                     if not (1 <= len(v) <= 3 and set(v) <= set(b'abc')):
                         fails.append(rec('funnel', 'OctetString(SIZE(1..3), FROM("abc")) %r %s %r = %r violates its own '
                                                    'constraint' % (a, name, b, v)))
+    # BIT STRING: every operator against a python string of '0'/'1' -- the result is the model's result when the model's
+    # result satisfies SIZE, and a refusal (library error) otherwise; leading zero bits count
+    for lo, hi in ((0, 8), (4, 4), (1, 12)):
+        B = univ.BitString().subtype(subtypeSpec=C.ValueSizeConstraint(lo, hi))
+        bops = {'add': lambda a, b, k: (a + b, None), 'radd': lambda a, b, k: (b + a, None), 'mul': lambda a, b, k: (a * k, None),
+                'rmul': lambda a, b, k: (a * k, 'r'), 'lshift': lambda a, b, k: (a + '0' * k, None),
+                'rshift': lambda a, b, k: (a[:max(0, len(a) - k)], None), 'slice': lambda a, b, k: (a[k:], None),
+                'slice2': lambda a, b, k: (a[:k], None), 'clone': lambda a, b, k: (b, None)}
+        real = {'add': lambda x, b, k: x + b, 'radd': lambda x, b, k: b + x, 'mul': lambda x, b, k: x * k, 'rmul': lambda x, b, k: k * x,
+                'lshift': lambda x, b, k: x << k, 'rshift': lambda x, b, k: x >> k,
+                'slice': lambda x, b, k: x[k:], 'slice2': lambda x, b, k: x[:k], 'clone': lambda x, b, k: x.clone(b)}
+        strs = ['', '0', '1', '0011', '1000', '00000000', '010', '111111111']
+        for a in strs:
+            if not lo <= len(a) <= hi:
+                continue
+            x = B.clone(a)
+            for name in bops:
+                for b in strs[:6]:
+                    for k in (0, 1, 2, 3):
+                        n += 1
+                        want = bops[name](a, b, k)[0]
+                        try:
+                            r = real[name](x, b, k)
+                            got = r.asBinary()
+                        except perror.PyAsn1Error:
+                            got = None
+                        except Exception as e:
+                            fails.append(rec('funnel', 'BitString(SIZE(%d..%d)) %r %s (%r, %d) raised %s: %s' % (
+                                lo, hi, a, name, b, k, type(e).__name__, e)))
+                            continue
+                        expect = want if lo <= len(want) <= hi else None
+                        if got != expect:
+                            fails.append(rec('funnel', 'BitString(SIZE(%d..%d)) %r %s (%r, %d) gives %s, the string model %s' % (
+                                lo, hi, a, name, b, k, 'a refusal' if got is None else repr(got),
+                                'is refused by SIZE' if expect is None else 'gives %r' % expect)))
     return fails, n
 
 
